@@ -1,1 +1,148 @@
-//! reference models shared between engines
+//! Reference models and numeric helpers shared between engines.
+
+/// The power function of the build under test (std, libm or micromath back end), called
+/// directly so that powf-dependent outputs can be judged per build.
+pub fn backend_powf(x: f32, y: f32) -> f32 {
+    #[cfg(feature = "std")]
+    {
+        x.powf(y)
+    }
+    #[cfg(all(feature = "libm", not(feature = "std")))]
+    {
+        libm::powf(x, y)
+    }
+    #[cfg(all(feature = "micromath", not(feature = "std"), not(feature = "libm")))]
+    {
+        use micromath::F32Ext;
+        F32Ext::powf(x, y)
+    }
+}
+
+const EPS: f64 = f32::EPSILON as f64; // 2^-23
+const U: f64 = EPS / 2.0; // unit roundoff of f32
+
+/// Reference value computed in f64 together with
+///  * `err`: a running forward-error bound for a straightforward f32 evaluation of the same
+///    formula (each operation adds one f32 rounding of its result and propagates its
+///    operands' errors), and
+///  * a robust exactness certificate: when every input is a dyadic rational and the total
+///    magnitude of all terms stays below 2^24 units of the finest bit involved (`lsb`),
+///    *every* evaluation order is exact in f32, so bit equality can be demanded without
+///    favouring one association order.
+#[derive(Clone, Copy, Debug)]
+pub struct Tr {
+    pub v: f64,
+    pub err: f64,
+    /// exponent of the finest bit any term may occupy (i32::MAX for an exact zero)
+    pub lsb: i32,
+    /// upper bound on the sum of magnitudes of all terms that were combined
+    pub mag: f64,
+    pub robust: bool,
+}
+fn lsb_of(v: f64) -> i32 {
+    if v == 0.0 {
+        return i32::MAX;
+    }
+    let bits = v.to_bits();
+    let exp = ((bits >> 52) & 0x7ff) as i32;
+    let mant = bits & ((1u64 << 52) - 1);
+    if exp == 0 {
+        return -1074 + mant.trailing_zeros() as i32;
+    }
+    let tz = if mant == 0 { 52 } else { mant.trailing_zeros() as i32 };
+    exp - 1075 + tz
+}
+impl Tr {
+    /// an input that is an f32 value (no error)
+    pub fn exact(v: f32) -> Tr {
+        let v = v as f64;
+        Tr { v, err: 0.0, lsb: lsb_of(v), mag: v.abs(), robust: true }
+    }
+    /// an f64 reference of something the implementation obtains with `roundings` f32 roundings
+    pub fn approx(v: f64, roundings: u32) -> Tr {
+        let ex = crate::mc::exact32(v);
+        Tr { v, err: if ex { 0.0 } else { roundings as f64 * U * v.abs() }, lsb: lsb_of(v), mag: v.abs(), robust: ex }
+    }
+    fn chk(mut self) -> Tr {
+        // all orders exact iff the span between total magnitude and finest bit fits in 24 bits
+        if self.robust && self.lsb != i32::MAX {
+            let limit = (2.0f64).powi(self.lsb.saturating_add(24).clamp(-1000, 1000));
+            if !(self.mag < limit) || self.lsb < -140 || self.mag > 1e37 {
+                self.robust = false;
+            }
+        }
+        if !self.robust {
+            self.err += U * self.v.abs();
+        } else {
+            self.err = 0.0;
+        }
+        self
+    }
+    pub fn add(self, o: Tr) -> Tr {
+        Tr { v: self.v + o.v, err: self.err + o.err, lsb: self.lsb.min(o.lsb), mag: self.mag + o.mag, robust: self.robust && o.robust }.chk()
+    }
+    pub fn sub(self, o: Tr) -> Tr {
+        Tr { v: self.v - o.v, err: self.err + o.err, lsb: self.lsb.min(o.lsb), mag: self.mag + o.mag, robust: self.robust && o.robust }.chk()
+    }
+    pub fn mul(self, o: Tr) -> Tr {
+        let lsb = if self.lsb == i32::MAX || o.lsb == i32::MAX { i32::MAX } else { self.lsb + o.lsb };
+        Tr {
+            v: self.v * o.v,
+            err: self.v.abs() * o.err + o.v.abs() * self.err + self.err * o.err,
+            lsb,
+            mag: self.mag * o.mag,
+            robust: self.robust && o.robust,
+        }
+        .chk()
+    }
+    pub fn div(self, o: Tr) -> Tr {
+        let pow2 = o.v != 0.0 && o.v.abs().log2().fract() == 0.0;
+        let denom = (o.v.abs() - o.err).max(f64::MIN_POSITIVE);
+        let q = self.v / o.v;
+        let lsb = if self.lsb == i32::MAX { i32::MAX } else if pow2 { self.lsb - o.v.abs().log2() as i32 } else { self.lsb };
+        Tr {
+            v: q,
+            err: (self.err + q.abs() * o.err) / denom,
+            lsb,
+            mag: self.mag / o.v.abs(),
+            robust: self.robust && o.robust && pow2,
+        }
+        .chk()
+    }
+    pub fn neg(self) -> Tr {
+        Tr { v: -self.v, ..self }
+    }
+    /// Judge an f32 result: bit-for-bit (as values) when the certificate holds, otherwise
+    /// within k times the running error bound.
+    pub fn agrees(&self, got: f32, k: f64) -> bool {
+        if !self.v.is_finite() || self.v.abs() > 3e38 {
+            return true; // outside the domain the oracle speaks about
+        }
+        if self.robust {
+            return got as f64 == self.v;
+        }
+        let g = got as f64;
+        g.is_finite() && (g - self.v).abs() <= k * self.err + U * self.v.abs() + 1e-44
+    }
+    pub fn show(&self) -> String {
+        if self.robust {
+            format!("{:?} (exact)", self.v)
+        } else {
+            format!("{:?} +- {:.3e}", self.v, self.err)
+        }
+    }
+}
+
+/// seconds of a nanosecond interval as the crate computes it: (ns as f32) / 1e9.
+/// Exact only if the nanosecond count itself is representable in f32 (e.g. 2.25e9 is not:
+/// it needs 25 bits) and the quotient is representable; otherwise two roundings.
+pub fn secs(ns: i64) -> Tr {
+    let v = ns as f64 / 1e9;
+    let f = ns as f32;
+    let ns_exact = f as f64 == ns as f64;
+    if ns_exact && crate::mc::exact32(v) {
+        Tr { v, err: 0.0, lsb: lsb_of(v), mag: v.abs(), robust: true }
+    } else {
+        Tr { v, err: 2.0 * U * v.abs(), lsb: lsb_of(v), mag: v.abs(), robust: false }
+    }
+}
